@@ -484,6 +484,9 @@ def note_new_jobs(v, h, op, res, k, prev):
         h.parents[(bb, jid)] = ps
         if not (sj <= jid < sj + nj):
             h.report('C08', 'C08:accepted-job-id-outside-reserved-range', k, {'job': jid, 'range': [sj, sj + nj - 1]})
+        if len(set(ps)) != len(ps):
+            # a job_parents row per distinct parent but n_pending_parents counts the list: the job could never become ready
+            h.report('C08', 'C08:accepted-duplicated-dependency', k, {'job': jid, 'parents': ps})
         for q in ps:
             if q == jid:
                 h.report('C08', 'C08:accepted-self-dependency', k, {'job': jid})
